@@ -327,6 +327,9 @@ func ruleC16(c *Ctx) {
 				return false, "?"
 			}
 			cs, ok := t.Args[1].constStr()
+			if !ok {
+				return false, "?" // TrimLeftFunc(line, predicate), a cutset held in a variable: not read
+			}
 			return ok && strings.Contains(cs, " ") && strings.Contains(cs, "\t") && t.Name != "strings.TrimPrefix", fmt.Sprintf("%q", cs)
 		}
 		for i, set := range [][]*Term{trims, pcTrims} {
